@@ -4,7 +4,7 @@ from c05 import parse_token_debug, concrete_token
 
 SENT = "hole0x"          # all lower case: locating the name must not depend on the case-preservation under test
 RESERVED = {"pi", "i", "sin", "cos", "cis", "exp", "sqrt"}
-NAMES = ["ro", "theta", "Theta", "RO", "Ro", "i", "pi", "PI", "Pi", "sin", "Cos", "SQRT", "X", "a-b", "q0", "cIs", "Exp"]
+NAMES = ["ro", "theta", "Theta", "RO", "Ro", "i", "I", "pi", "PI", "Pi", "sin", "Cos", "SQRT", "X", "a-b", "q0", "cIs", "Exp"]
 # (name, text, in_expression)
 POSITIONS = [
     ("declare", "DECLARE {n} BIT[2]", False),
@@ -33,6 +33,10 @@ POSITIONS = [
     ("declare-then-use", "DECLARE {n} REAL[1]\nRX({n}) 0", True),
     ("sharing", "DECLARE a BIT[1] SHARING {n}", False),
     ("defcal-param", "DEFCAL RX(%{n}) 0:\n\tNOP", False),
+    # a name directly after a numeric literal: only the lower-case imaginary unit `i` belongs to the number
+    ("call-arg-after-integer", "CALL foo 2 {n}", "imag"),
+    ("call-arg-after-real", "CALL foo 2.5 {n} ro[0]", "imag"),
+    ("rawcapture-memref-after-number", 'RAW-CAPTURE 0 "rf" 2 {n}', "imag"),
 ]
 
 
@@ -58,7 +62,7 @@ class C06(Check):
     title = "Names are preserved exactly and consistently by parsing"
     functions = ["parser::instruction::parse_instructions", "parser::command::*", "parser::common::*", "parser::expression::{parse_expression,parse_expression_identifier}",
                  "parser::gate::parse_gate"]
-    assumptions = ["identifier token payloads are solver-chosen from a 17-name mixed-case alphabet (including the reserved words in several casings)",
+    assumptions = ["identifier token payloads are solver-chosen from a 18-name mixed-case alphabet (including the reserved words in several casings)",
                    "token slices come from natively lexing each name-position template (verification hook); the identifier token is then made symbolic",
                    "the expected location of the name in the AST is the location of a sentinel name in the natively parsed template"]
     outside = ["characters -> identifier token (lex_identifier_raw): lexer", "name positions not in the template list"]
@@ -130,7 +134,7 @@ class C06(Check):
         reserved_possible = inexpr
         if inexpr:
             idx = m.choose([(k, nm.sym == k) for k in range(len(NAMES))])
-            if NAMES[idx].lower() in RESERVED:
+            if (NAMES[idx] == "i") if inexpr == "imag" else (NAMES[idx].lower() in RESERVED):
                 m.world.count("reserved_word_paths")
                 m.require("reserved-word", name, True)
                 return self.sample(m, name, "reserved")
@@ -157,7 +161,8 @@ class C06(Check):
         r = runner.call({"op": "parse_any", "kind": "program", "text": case["text"]})
         if "panic" in r or "crash" in r: return True, f"panic:{name}", f"Program::from_str({case['text']!r}) panics: {r}"
         if "ok" not in r: return False, "", f"rejected natively: {case['text']!r}: {r}"
-        if inexpr and case["name"].lower() in RESERVED: return False, "", "reserved word"
+        if inexpr == "imag" and case["name"] == "i": return False, "", "imaginary unit"
+        if inexpr is True and case["name"].lower() in RESERVED: return False, "", "reserved word"
         tree = [parse_debug(x) for x in r["ok"]]
         # the natively built program lists declarations first: locate by value instead of by path when the shapes differ
         for p in self.paths[name]:
